@@ -14,9 +14,10 @@ open C12 Sy C07
 /-! ### `Notify::notify` after its branch point -/
 
 /-- the explicit successor state of `notify`: the flag is set, the notifier's clocks are released
-into the object, and every OTHER thread whose pending operation is on the object joins the
-notifier's causality and is woken if it is blocked (`Thread.wake`; this is not `Thread::unpark`: a
-thread that is not blocked gets no `park` token) -/
+into the object, and every OTHER thread whose pending operation is on the object is woken if it is
+blocked (`Thread.wake`; this is not `Thread::unpark`: a thread that is not blocked gets no `park`
+token).  Nothing is acquired by the threads woken (repair of finding F26): the waiter synchronises with
+the notifiers in the second half of `wait` -/
 theorem notifyEffect_eq {w : World} {o : Nat} {s : NotifySt}
     (h : w.exec.objs[o]? = some (.notify s)) :
     w.notifyEffect o = .ok
@@ -26,8 +27,7 @@ theorem notifyEffect_eq {w : World} {o : Nat} {s : NotifySt}
           threads := { w.exec.threads with threads :=
             (w.exec.threads.threads.mapIdx fun i th =>
               if i = w.tid then th
-              else if th.operation.any (fun op => op.obj == o) then
-                ({ th with causality := th.causality.join w.ths.activeT.causality }).wake
+              else if th.operation.any (fun op => op.obj == o) then th.wake
               else th) } } } := by
   unfold World.notifyEffect
   simp only [getNotify_of h, bind, Except.bind, pure, Except.pure]
@@ -35,14 +35,11 @@ theorem notifyEffect_eq {w : World} {o : Nat} {s : NotifySt}
   rfl
 
 /-- the entry of every thread after `notify`: a thread OTHER than the notifier whose pending operation is on
-the object joins the notifier's causality and is woken if it is blocked (`Thread.wake`); every other entry is
-unchanged -/
+the object is woken if it is blocked (`Thread.wake`); every other entry is unchanged -/
 theorem notifyEffect_get {w w' : World} {o : Nat} {s : NotifySt}
     (h : w.exec.objs[o]? = some (.notify s)) (hr : w.notifyEffect o = .ok w') (i : Nat) :
     w'.ths.get i =
-      if i ≠ w.tid ∧ ∃ op, (w.ths.get i).operation = some op ∧ op.obj = o then
-        ({ w.ths.get i with
-            causality := (w.ths.get i).causality.join w.ths.activeT.causality }).wake
+      if i ≠ w.tid ∧ ∃ op, (w.ths.get i).operation = some op ∧ op.obj = o then (w.ths.get i).wake
       else w.ths.get i := by
   unfold World.notifyEffect at hr
   simp only [getNotify_of h, bind, Except.bind, pure, Except.pure] at hr
@@ -78,6 +75,20 @@ theorem notifyEffect_wakes {w w' : World} {o : Nat} {s : NotifySt}
   · next hc =>
     refine ⟨rfl, ⟨fun hne => absurd rfl hne, fun hh => absurd ⟨hh.1, hh.2.1⟩ hc⟩,
       fun hne => absurd rfl hne, fun _ => rfl⟩
+
+/-- `notify` acquires nothing for anybody (repair of finding F26): every thread's causality (and every other
+clock field, the pending operation, the token) is what it was; only `state` / `parked` of a woken thread change -/
+theorem notifyEffect_caus {w w' : World} {o : Nat} {s : NotifySt}
+    (h : w.exec.objs[o]? = some (.notify s)) (hr : w.notifyEffect o = .ok w') (i : Nat) :
+    (w'.ths.get i).causality = (w.ths.get i).causality ∧
+    (w'.ths.get i).released = (w.ths.get i).released ∧
+    (w'.ths.get i).unparkCaus = (w.ths.get i).unparkCaus ∧
+    (w'.ths.get i).operation = (w.ths.get i).operation := by
+  rw [notifyEffect_get h hr i]
+  split
+  · cases hb : (w.ths.get i).state <;>
+      simp [Thread.wake, Thread.isBlocked, Thread.setRunnable, hb]
+  · exact ⟨rfl, rfl, rfl, rfl⟩
 
 /-- `notify` sets the flag and releases: the object's clock is above the notifier's causality -/
 theorem notifyEffect_hb {w w' : World} {o : Nat} {s : NotifySt}
